@@ -1012,6 +1012,31 @@ func (fc *FuncCtx) loopEnv(fr *Frame, h *ssa.BasicBlock, st *State, adj int64) *
 	}
 	env.idxAdj = adj
 	env.headSt = fc.loopHeadSt[h]
+	cur := fc.loopOrd[h]
+	env.outerIdx = func(k int, s *State) (*Term, error) {
+		if k == cur {
+			return nil, fmt.Errorf("#i%d: loop %d is the current loop, use #i", k, k)
+		}
+		for hb, ord := range fc.loopOrd {
+			if ord != k || hb.Parent() != h.Parent() {
+				continue
+			}
+			// h must lie in the body of loop k: then the header of k has run its increment and the cell holds the current index
+			if ci := analyzeCFG(h.Parent()); !ci.loopBody[hb][h] {
+				return nil, fmt.Errorf("#i%d: loop %d does not enclose loop %d", k, k, cur)
+			}
+			ri := fc.rangeIndexCell(hb)
+			if ri == nil {
+				return nil, fmt.Errorf("#i%d: loop %d is not a range loop", k, k)
+			}
+			t, ok := s.cells[ri]
+			if !ok {
+				return nil, fmt.Errorf("#i%d: no range index available", k)
+			}
+			return t, nil
+		}
+		return nil, fmt.Errorf("#i%d: no such loop in this function", k)
+	}
 	return env
 }
 
